@@ -24,22 +24,41 @@ func runC20(c *Ctx) {
 		return
 	}
 	R.Analysed(fname(pp))
-	nOb, nOK := c.panicFreedom("C20.R1", []*ssa.Function{pp})
+	// ParseParameters and the private helpers it may be split into
+	ppFns := []*ssa.Function{pp}
+	seenPP := map[*ssa.Function]bool{pp: true}
+	for i := 0; i < len(ppFns) && i < 8; i++ {
+		for _, ci := range core.Calls(ppFns[i]) {
+			if h := core.StaticCallee(ci); h != nil && c.P.InPkg(h, "wire") && len(h.Blocks) > 0 && !seenPP[h] && !token.IsExported(h.Name()) {
+				seenPP[h] = true
+				ppFns = append(ppFns, h)
+				R.Analysed(fname(h))
+			}
+		}
+	}
+	allCalls := func() []ssa.CallInstruction {
+		var out []ssa.CallInstruction
+		for _, fn := range ppFns {
+			out = append(out, core.Calls(fn)...)
+		}
+		return out
+	}
+	nOb, nOK := c.panicFreedom("C20.R1", ppFns)
 	R.Count("bounds_obligations", nOb)
 	R.Count("bounds_discharged", nOK)
 	R.Floor("C20.R1", "bounds obligations in ParseParameters", nOb, 3)
-	c.c04Loops("C20.R2", []*ssa.Function{pp}, 2)
-	c.c04Allocations("C20.R2", []*ssa.Function{pp}, 1)
+	c.c04Loops("C20.R2", ppFns, 2)
+	c.c04Allocations("C20.R2", ppFns, 1)
 	// no explicit panic / recursion
-	for _, ci := range core.Calls(pp) {
-		if core.StaticCallee(ci) == pp {
+	for _, ci := range allCalls() {
+		if seenPP[core.StaticCallee(ci)] && core.StaticCallee(ci) == ci.Parent() {
 			R.Fail("C20.R2", "ParseParameters:recursion", c.at(ci), "ParseParameters does not recurse on client text", "recursive call")
 		}
 	}
 
 	// ---------- R3: only zero OIDs are appended
 	n := 0
-	for _, ci := range core.Calls(pp) {
+	for _, ci := range allCalls() {
 		if core.BuiltinName(ci.Common()) != "append" {
 			continue
 		}
@@ -145,14 +164,53 @@ func runC20(c *Ctx) {
 		var ls []ssa.Value
 		leaves(r.Results[0], map[ssa.Value]bool{}, &ls)
 		ok := true
-		for _, l := range ls {
+		inProgress := map[ssa.Value]bool{}
+		var builtList func(l ssa.Value, fn *ssa.Function, depth int) bool
+		builtList = func(l ssa.Value, fn *ssa.Function, depth int) bool {
+			if inProgress[l] {
+				return true // a cycle through the loop / the helper: decided by the other sources
+			}
+			inProgress[l] = true
+			defer delete(inProgress, l)
 			switch x := l.(type) {
 			case *ssa.MakeSlice:
-			case *ssa.Call:
-				if core.BuiltinName(&x.Call) != "append" {
-					ok = false
+				return true
+			case *ssa.Parameter:
+				// a helper that grows the list it was given: judged by what its only caller passes
+				if a, caller := c.callerArg(x); a != nil && depth > 0 {
+					var srcs []ssa.Value
+					leaves(a, map[ssa.Value]bool{}, &srcs)
+					for _, sv := range srcs {
+						if !builtList(sv, caller, depth-1) {
+							return false
+						}
+					}
+					return true
 				}
-			default:
+				return false
+			case *ssa.Call:
+				if core.BuiltinName(&x.Call) == "append" {
+					return true
+				}
+				h := core.StaticCallee(x)
+				if h == nil || !c.P.InPkg(h, "wire") || len(h.Blocks) == 0 || depth == 0 {
+					return false
+				}
+				for _, r := range returns(h) {
+					var srcs []ssa.Value
+					leaves(r.Results[0], map[ssa.Value]bool{}, &srcs)
+					for _, sv := range srcs {
+						if !builtList(sv, h, depth-1) {
+							return false
+						}
+					}
+				}
+				return true
+			}
+			return false
+		}
+		for _, l := range ls {
+			if !builtList(l, pp, 4) {
 				ok = false
 			}
 		}
